@@ -114,9 +114,8 @@ class FindIdentifiers(_ast_util.NodeVisitor):
 
     def visit_ListComp(self, node):
         if self.in_function:
-            for comp in node.generators:
-                self.visit(comp.target)
-                self.visit(comp.iter)
+            self._visit_generators(node)
+            self.visit(node.elt)
         else:
             self.generic_visit(node)
 
@@ -124,11 +123,20 @@ class FindIdentifiers(_ast_util.NodeVisitor):
 
     def visit_DictComp(self, node):
         if self.in_function:
-            for comp in node.generators:
-                self.visit(comp.target)
-                self.visit(comp.iter)
+            self._visit_generators(node)
+            self.visit(node.key)
+            self.visit(node.value)
         else:
             self.generic_visit(node)
+
+    def _visit_generators(self, node):
+        # the targets are visited first, so that they are known to be
+        # local when the conditions and the element are visited
+        for comp in node.generators:
+            self.visit(comp.target)
+            self.visit(comp.iter)
+            for if_ in comp.ifs:
+                self.visit(if_)
 
     def _expand_tuples(self, args):
         for arg in args:
